@@ -11,7 +11,7 @@ import (
 
 func main() {
 	r := ev.New("C16", "exploration",
-		"CenterVertically/ReplaceLastLine on every geometry: prefix 0..P lines (0 = empty string), centred 1..C, suffix 0..S, height 2..H with distinct line tokens; "+
+		"CenterVertically/ReplaceLastLine on every geometry: prefix 0..P lines (0 = empty string), centred 1..C, suffix 0..S, height 2..H with distinct line tokens; every frame the real UI emits for terminal heights {2,3,4,5,9} (quick) / 2..9 (thorough) x 4 start commands x every key sequence of length <=2 (quick) / <=3 (thorough) over {j,k,space,1,Enter,:,x,Esc,o,g} plus a resize; "+
 			"distinct_nontrivial counts geometries where the centred block is shorter than the screen (so buffers must be computed)")
 	if *ev.FlagReplay != "" {
 		var d struct {
